@@ -258,12 +258,19 @@ def c13_dest(rng: Rng):
     complete_at = next((ee for ee in range(1, lim + 1) if stored(ee) == c.data), None)
     if stored(0) == c.data:
         return s, f, c, {"skipped": "file already complete at EOF"}
+    # time passes between Metadata, the File Data PDUs and the EOF (the check timer runs from the EOF,
+    # whatever happened before)
+    paced = rng.chance(0.6)
     s.sm("D", g.md(c, h, msgs=c.msgs))
     s.drain("D")
+    if paced:
+        s.tick(rng.choice((1, ms - 1, ms, ms + 1, 2 * ms, rng.randrange(1, 3 * ms + 1))))
     for i, (off, ln) in enumerate(tiles):
         if i not in late:
             s.sm("D", g.fd(h, off, c.data[off:off + ln]))
             s.drain("D")
+            if paced and rng.chance(0.3):
+                s.tick(rng.randrange(1, ms + 1))
     st = s.sm("D", g.eof(h, 0, g.ref_checksum(c.cks, c.data), n))
     s.drain("D")
     if not (st.ok and st.step == "RECV_FILE_DATA_WITH_CHECK_LIMIT_HANDLING"):
